@@ -336,6 +336,7 @@ func C20(r *core.Run) {
 	// ----- purity of NewHash
 	checkPure(r, rel, "NewHash")
 	soleParser(r)
+	signRejected(r)
 }
 
 func max64(a, b int64) int64 {
